@@ -75,6 +75,8 @@ class FrameSetup(object):
         so.cells[((), self.soff('mapper_known'))] = (1, KNOWN)
         so.cells[((), self.soff('see_list_count'))] = (4, SEEN_COUNT)
         so.cells[((), self.soff('small_icon_size'))] = (W, ICON_SIZE)
+        # record invariant: no cached icon => recorded size 0 (assumed at entry; icon_invariant() proves every handler keeps it)
+        st.tags['implications'] = ((('pset', ('in', 'st', self.soff('small_icon')), (ZERO, ('ptr', 'heap:cached.icon', ZERO))), ZERO, ICON_SIZE, Dom(0, 0)),)
         if self.init_cells:
             pf = dict(so.ptr_fields)
             for off, (w, t) in self.init_cells.items():
@@ -339,6 +341,39 @@ def entry_icon_exists(fs, st):
     if c[0] == 'ptr':
         return True
     return None
+
+
+def request_alloc(oid):
+    """A heap object allocated while the frame is handled (not one of the harness's entry placeholders), whatever
+    function the allocation sits in."""
+    oid = str(oid)
+    return oid.startswith('heap:') and oid != 'heap:cached.icon' and not oid.startswith('heap:port.') and not oid.startswith('heap:lltd_state_for_iface')
+
+
+def icon_invariant(rep, rule, fs, res, fnf='lltdResponder/lltdBlock.c'):
+    """Every final state keeps `no cached icon => recorded icon size 0` (the invariant the entry state assumes)."""
+    from .. import mem
+    n = 0
+    for region, outs in res.items():
+        for st, ret in outs:
+            so = st.objs.get('st')
+            if so is None:
+                continue
+            p = st.canon(mem.load_scalar(st, so, C(fs.soff('small_icon')), fs.ix.parse_type('void *')))
+            z = st.canon(mem.load_scalar(st, so, C(fs.soff('small_icon_size')), fs.ix.parse_type('unsigned long')))
+            n += 1
+            if p[0] == 'ptr':
+                rep.ok(rule)
+                continue
+            if p == ZERO:
+                ok = st.dom(z).hi == 0
+            else:
+                # pointer not decided on this path: the pair must be the untouched entry pair, or the size 0
+                ok = st.dom(z).hi == 0 or (z == st.canon(ICON_SIZE) and p[0] == 'pset' and p[1] == ('in', 'st', fs.soff('small_icon')))
+            rep.check(ok, rule, 'icon-invariant|%s' % region,
+                      'a path of cell %s ends with cached icon %s but recorded icon size %s: "no icon => size 0" is what every handler relies on at entry'
+                      % (region, short(p), short(z)), function='parseFrame', file=fnf)
+    return n
 
 
 def live_heap(fs, st, ignore=('st',)):
